@@ -4,6 +4,7 @@ import (
 	"sort"
 	"strings"
 
+	"voicheck/econst"
 	"voicheck/edt"
 	"voicheck/esib"
 	"voicheck/load"
@@ -61,6 +62,8 @@ func init() {
 		run.Rule("SIB-scan", "constant-time lookups scan every entry exactly once", 5*k)
 
 		convRule := run.Rule("SIB-conv-source", "every representation conversion set*/Set* between different point models computes all output coordinates from its source operand and never reads back a receiver coordinate (sibling uniformity of curve/models.go)", 10*k)
+		aliasRule := run.Rule("ALIAS", "point, scalar and wide-integer operations compute the same result when two same-typed pointer parameters (receiver included) denote one object — in-place use p.Add(p, q) is safe", 100)
+		shf := run.Rule("SHARED-fresh", "re-initialising an expanded point installs a fresh table (by-value copies and readers of the old one keep a consistent table)", 2)
 		formRule := run.Rule("FORMULA", "the serial point formulas, representation changes, neutral elements and their compositions equal the reference formulas (extended twisted Edwards, a = -1) as terms over uninterpreted field operations, modulo commutativity", 22*len(cfgs))
 		pairRule := run.Rule("DT-pairing", "the expanded Pippenger fallback keeps static scalars paired with the points of the static (expanded) operands and dynamic with dynamic", 3*k)
 		generic := c.Prog("purego")
@@ -87,6 +90,10 @@ func init() {
 			du := esib.CheckDuality(run, p, "SIB-duality")
 			sc := esib.CheckMaskedScan(run, p, "SIB-scan")
 			nconv := checkConversionsReadSource(p, convRule)
+			checkSharedFresh(p, shf)
+			if id == cfgs[0] {
+				run.Sample(checkAliasing(aliasRule, p, []string{"curve", "curve/scalar", "internal/lattice", "internal/elligator"}))
+			}
 			ecfg := &edt.Config{P: p, Mod: modFor(p)}
 			for _, s := range append(c03FormulaSpecs(), c03CompositionSpecs()...) {
 				edt.Check(formRule, ecfg, s)
@@ -135,5 +142,11 @@ func init() {
 			}
 		}
 		_ = load.Module
+		// the torsion points, base points and tables the group law is exercised on, by value (same rules as C20)
+		for _, id := range cfgs {
+			run.SetConfig(id)
+			econst.CheckAll(run, c.Prog(id), "CONST")
+		}
+		arithmeticFoundations(c)
 	}
 }
